@@ -44,6 +44,7 @@ type StageSpec struct {
 // FaultSpec is one injected fault.
 type FaultSpec struct {
 	Kind string `json:"kind"`          // family specific
+	Site string `json:"site,omitempty"` // callback site (C07)
 	Pos  int    `json:"pos,omitempty"` // callback position / step index
 	Inv  int    `json:"inv,omitempty"` // invocation index
 	Arg  int    `json:"arg,omitempty"`
@@ -126,10 +127,17 @@ type Env struct {
 	Unhandled []string
 
 	Probes map[string]int // reach probes ("this rare condition was hit")
+	Out    map[string]string // family-specific results of the run (used by ExpandRun)
 
 	calls              map[string]int
 	callOrder          []string
+	CallLog            []CallRec
+	evCount            func() int
 	firedFaults        int
+	faultBefore        int
+	firstFault         *FaultSpec
+	faultsOff          bool
+	unterminated       bool
 	Sites              []string
 	finalized          int
 	expectHarnessPanic bool
@@ -140,7 +148,14 @@ type Env struct {
 }
 
 func newEnv(k *simrt.Kernel, sc *Scn) *Env {
-	return &Env{K: k, Sc: sc, Probes: map[string]int{}, calls: map[string]int{}}
+	return &Env{K: k, Sc: sc, Probes: map[string]int{}, calls: map[string]int{}, Out: map[string]string{}}
+}
+
+// CallRec is one invocation of a user-supplied callback (numbered per site).
+type CallRec struct {
+	Site   string
+	Inv    int
+	Before int // observer events delivered before this invocation began
 }
 
 // Violate records a violation of prop, clause (stable short name) with details.
@@ -495,6 +510,9 @@ func (s *Src) Obs() ro.Observable[int] {
 		sub := &srcSub{}
 		s.subs = append(s.subs, sub)
 		s.env.K.Log(fmt.Sprintf("src%d subscribe #%d", s.ID, n))
+		if ns := len(s.env.Sc.Sources); ns > 0 && s.ID%ns == 0 {
+			s.env.Call("src.subscribe") // the subscribe function is user code too (C07)
+		}
 		script := s.scriptFor(n)
 		prods := s.Spec.Producers
 		if prods < 1 {
